@@ -827,6 +827,39 @@ def c13_text(t, dump, tier):
             pass
         except Unsupported as u:
             stats['inconclusive'].append('recompile: %s' % str(u)[:150])
+    # two schedules of the goroutines the compile command may start (a spawned goroutine runs at once / only when the others
+    # block): files and verdict must not depend on the schedule.  Without go statements both runs are the same run.
+    if t.tag.startswith(('g:', 'a:combined0', 'a:match_two', 'w:rootless', 'w:diamond')) or tier == 'thorough':
+        try:
+            obs = []
+            for pol in ('eager', 'deferred'):
+                M = make_machine(PathCtl())
+                snap = Snapshot(prog, dump).load()
+                m = M.call(PARSER + '.VerifVisit', [snap.tree])
+                if syntax_errors(M, m):
+                    break
+                M.env['parse_result'] = m
+                M.env['gor_policy'] = pol
+                M.effects = []
+                M.stdout = []
+                outs = GoMap()
+                for g in GENS:
+                    outs.set(go_str(g), go_str('/out/' + g))
+                try:
+                    err = M.call(MOD + '/cmd.Compile', [go_str('in.dsl'), outs])
+                finally:
+                    M.gor_killall()
+                obs.append((err is None, dict(M.env['fs'])))
+            stats['paths'] += len(obs)
+            if len(obs) == 2 and obs[0] != obs[1]:
+                only = sorted(set(obs[0][1]) ^ set(obs[1][1]))
+                res.append(BFinding('C13', 'cmd:compile', t.tag, 'nondet:goroutine-schedule',
+                                    'the files compile leaves behind depend on the schedule of its goroutines: %d files with one schedule, %d with another (e.g. %s); verdicts %s / %s' % (
+                                        len(obs[0][1]), len(obs[1][1]), only[:3], obs[0][0], obs[1][0]), {'text': t.text}))
+        except GoPanic:
+            pass
+        except Unsupported as u:
+            stats['inconclusive'].append('schedules: %s' % str(u)[:150])
     return res, stats
 
 
